@@ -266,7 +266,7 @@ def wide_scalar_st(t):
     if isinstance(t, Types.ListElement):
         return wide_scalar_st(t.converter)
     if isinstance(t, Types.Bool):
-        return _rarely(st.booleans().map(lambda b: ["bool", b]), st.sampled_from([["int", 0], ["int", 1], ["str", "y"], ["str", "Y"]]))
+        return _rarely(st.booleans().map(lambda b: ["bool", b]), st.sampled_from([["int", 0], ["int", 1], ["str", "y"], ["str", "Y"], ["str", "TRUE"], ["str", "true"], ["str", "Yes"], ["str", "FALSE"], ["str", "NO"], ["str", " Y "]]))
     if isinstance(t, Types.String):
         cap = t.length if t.length is not None else 40
         main = st.one_of(
